@@ -66,6 +66,19 @@ def jDrain (back : Bool) (fuel : Nat) (j : JIter) (n : Nat) (h : UInt64) : JIter
     | some v => jDrain back fuel r.1 (n + 1) (fnvStep h v)
     | none => (r.1, n, h)
 
+/-- `Iterator::nth` / `DoubleEndedIterator::nth_back` of the treemap iterators.  Neither `treemap::Iter` nor
+    `treemap::IntoIter` overrides them (treemap/iter.rs:241-351), so this is core's default: `advance_by(n)` — `next()` /
+    `next_back()` until `n` elements are gone, stopping at the first `None` — and then one more call.  `fuel` (remaining
+    elements + 2) only makes the recursion structural. -/
+def jNth (back : Bool) : Nat → Nat → JIter → JIter × Option Nat
+  | 0, _, j => (j, none)
+  | _ + 1, 0, j => if back then jNextBack j else jNext j
+  | fuel + 1, n + 1, j =>
+    let r := if back then jNextBack j else jNext j
+    match r.2 with
+    | none => (r.1, none)
+    | some _ => jNth back fuel n r.1
+
 def showHint (p : Nat × Option Nat) : String := s!"{p.1},{showOpt p.2}"
 
 def opsTreemapCore : Handler := fun st toks =>
@@ -194,6 +207,14 @@ def opsTreemapCore : Handler := fun st toks =>
     let (i, js) ← j? k
     let r := jNextBack js.m; let q := Spec.Cursor64.nextBack js.s
     pure (st.setJ i ⟨r.1, q.1⟩, specMark (showOpt r.2) (showOpt q.2))
+  | ["jnth", k, n] => do
+    let (i, js) ← j? k; let n ← parseU64 n
+    let r := jNth false (js.s.length + 2) n js.m
+    pure (st.setJ i ⟨r.1, js.s.drop (n + 1)⟩, specMark (showOpt r.2) (showOpt js.s[n]?))
+  | ["jnth_back", k, n] => do
+    let (i, js) ← j? k; let n ← parseU64 n
+    let r := jNth true (js.s.length + 2) n js.m
+    pure (st.setJ i ⟨r.1, js.s.take (js.s.length - (n + 1))⟩, specMark (showOpt r.2) (showOpt js.s.reverse[n]?))
   | ["jadvance_to", k, v] => do
     let (i, js) ← j? k; let v ← parseU64 v
     match js.m with
